@@ -267,7 +267,8 @@ def run_reconnect(idx, rng):
     from ..minicodec import brief
     from . import c17
     desc = c17.gen_case(rng)
-    desc['lease'] = [rng.choice([0.0, 0.3, 1.0, 2.0, 4.0]), rng.choice([1, 2, 5, 100]), rng.choice([500, 5000, 60000])]
+    desc['lease'] = [[rng.choice([0.0, 0.3, 1.0, 2.0, 4.0]) for _ in range(4)], rng.choice([1, 2, 5, 100]),
+                     rng.choice([500, 5000, 60000])]
     world, rounds, conns = vloop.run(c17._run(rng, desc))
     wit = []
     st = {'requests_admitted_checked': 0, 'requests_retained': 0, 'leases_received': 0, 'requests_at_expiry_boundary': 0,
@@ -291,12 +292,27 @@ def run_reconnect(idx, rng):
                     wit.append({'clause': 'request-before-first-lease-of-connection',
                                 'detail': {'connection': n, 'frame': brief(f), 'case': desc}})
                     break
-                if sent > desc['lease'][1] or e['t'] - lease_at > desc['lease'][2] / 1000.0 + 1e-6:
+                if sent > desc['lease'][1] or e['t'] - lease_at > desc['lease'][2] / 1000.0 + 1e-6:  # noqa
                     wit.append({'clause': 'request-outside-lease',
                                 'detail': {'connection': n, 'frame': brief(f), 'requests_sent': sent,
                                            'since_lease_s': e['t'] - lease_at, 'case': desc}})
                     break
         st['connections_with_lease_checked'] += 1
+    # a request made on the new connection is sent once that connection's lease allows it, and answered
+    for rnd, r in enumerate(rounds):
+        pr = r['probe']
+        if r['new'] is None or pr is None:
+            continue
+        n = r['new']['index']
+        leased = [e for e in world.events if e['kind'] == 'wire' and e.get('conn') == n and e['ep'] == 'c'
+                  and e['dir'] == 'recv' and e['f']['type'] == 'LEASE']
+        if leased and desc['lease'][1] >= 2 and desc['lease'][2] >= 5000 and (pr[0] != 'result' or pr[1] is not True):
+            # (a one-request or 0.5 s lease may legitimately have been used up / expired before the probe)
+            wit.append({'clause': 'request-under-valid-lease-not-served',
+                        'detail': {'connection': n, 'probe': list(pr), 'round': rnd, 'case': desc,
+                                   'trace': [x for x in __import__('rv.pair', fromlist=['x']).trace_excerpt(world, 300)
+                                             if ' c ' in x][-40:]}})
+            break
     return {'evals': 1, 'nt_keys': [short_hash(desc)] if len(conns) >= 2 else [], 'deciding': st, 'witnesses': wit[:2],
             'counts': {'reconnect_lease_runs': 1, 'connections': len(conns)}, 'sample': desc}
 
